@@ -3,6 +3,7 @@ use crate::ctx::{Ctx, Outcome, Tier};
 use serde_json::Value;
 
 pub mod c01;
+pub mod c17;
 pub mod c20;
 
 pub trait Prop {
@@ -28,6 +29,13 @@ pub trait Prop {
     fn hang_is_violation(&self) -> bool {
         false
     }
+    /// Does an allocation failure of a journaled case count as non-termination (a confirmed
+    /// abort) rather than as inconclusive? Only for properties whose generated programs are
+    /// bounded and that run under their own address-space limit, so that a runaway loop in the
+    /// library dies quickly instead of stalling until the watchdog.
+    fn alloc_failure_is_nontermination(&self) -> bool {
+        false
+    }
     fn max_restarts(&self) -> u32 {
         40
     }
@@ -37,7 +45,7 @@ pub trait Prop {
 }
 
 pub fn all() -> Vec<Box<dyn Prop>> {
-    vec![Box::new(c01::C01), Box::new(c20::C20)]
+    vec![Box::new(c01::C01), Box::new(c17::C17), Box::new(c20::C20)]
 }
 
 pub fn lookup(id: &str) -> Option<Box<dyn Prop>> {
